@@ -38,6 +38,7 @@ structure Ctx where
   runCmd : List (Nat × Nat) := []                 -- run number -> command id
   multi : Bool := false
   lastClear : String := "D"                       -- clear strategy at the last snapshot
+  armWanted : Option Bool := none                 -- does the model's act_heart_beat leave a timer wake-up behind (set at its last step)
   decided : Option String := none                 -- the select-1 / exit-0 decision the real code has taken so far
   pc : PC := .idle                                -- M's program counter inside a heart-beat handler (read-granularity replay)
   listCid : Option Nat := none                    -- command whose items the displayed list held at the last snapshot
@@ -180,7 +181,7 @@ def applyTok (m : Nat → Nat → Bool) (cs : Ctx × S) (tok : List String) : Ct
   -- heart-beat handler at READ granularity (Model/SessionFG.lean); the other threads' tokens between these are in trace order
   | ["Mb"] =>
       if c.pc != .idle then (flagMis c s!"heart-beat-inside-a-handler:{repr c.pc}", s)
-      else ({ c with pc := .hb1, lastWasSel := false }, s)
+      else ({ c with pc := .hb1, lastWasSel := false, armWanted := none }, s)
   | ["Mrs", v] =>
       if c.pc != .hb1 then (flagMis c s!"unexpected-is_done-read@{repr c.pc}", s) else mRead c s "rs" v (readerDone s)
   | ["Mms", v] =>
@@ -201,8 +202,16 @@ def applyTok (m : Nat → Nat → Bool) (cs : Ctx × S) (tok : List String) : Ct
        | _ => (flagMis c1 s!"unexpected-num_not_taken-read@{repr c1.pc}", s1))
   | ["Mfin"] =>
       (match c.pc with
-       | .hb5 _ _ => mGo c s true
+       | .hb5 rs ic =>
+           let (c1, s1) := mGo c s true
+           -- hbFinish arms the timer iff a run is outstanding or not everything has been read and taken
+           ({ c1 with armWanted := some (s1.mc.isSome || !(rs && ic)) }, s1)
        | _ => (c, s))
+  | ["Marm", v] =>
+      -- the wake-up bookkeeping the liveness theorems (c01_wakeup_pending, c01_no_deadlock) are about
+      (match c.armWanted with
+       | some w => if w == (v == "1") then c else flagMis c s!"timer-wake-up:model={w},implementation={v}"
+       | none => flagMis c "timer-wake-up-outside-act_heart_beat", s)
   | ["Ms1", ic, rs] =>
       let (c1, s1) := match c.pc with
         | .hb5 _ _ => mGo c s true
@@ -298,6 +307,12 @@ def applyTok (m : Nat → Nat → Bool) (cs : Ctx × S) (tok : List String) : Ct
       let c1 := if qid.toNat? == some s.q then c else flagBad c s!"displayed-query-is-not-the-matched-one:displayed={qid},matched={s.q}"
       let c2 := if cid.toNat? == some c1.cid then c1 else flagBad c1 s!"displayed-command-is-not-the-running-one:displayed={cid},running={c1.cid}"
       (c2, s)
+  | ["PV", v, quiet] =>
+      -- C20 at the Model's wiring ("once settled, the pane shows the most recent request"): with a preview pane shown, at the end
+      -- of an event-loop iteration that leaves the session settled (source ended, everything matched and harvested) the most
+      -- recent preview request is the one for the item under the cursor.  (The unchanged code keeps this at EVERY iteration end;
+      -- only the settled ones are claimed.)
+      (if v == "0" && quiet == "1" then flagBad c "settled-but-preview-request-is-not-for-the-current-item" else c, s)
   | "OUT" :: kvs => (judgeOut c s kvs, s)
   | _ => (flagMis c s!"bad-token:{" ".intercalate tok}", s)
 
